@@ -59,12 +59,55 @@ func permuteRules(kb *ast.KnowledgeBase, permute bool) {
 	kb.RuleEntries = m
 }
 
+// deepReset clears the memo of every node reachable from e by walking the tree itself, so that the
+// reference evaluation does not depend on the working-memory maps (whose correctness is under test).
+func deepReset(e *ast.Expression, depth int) {
+	if e == nil || depth > 64 {
+		return
+	}
+	e.Evaluated = false
+	deepReset(e.LeftExpression, depth+1)
+	deepReset(e.RightExpression, depth+1)
+	deepReset(e.SingleExpression, depth+1)
+	deepResetAtom(e.ExpressionAtom, depth+1)
+}
+
+func deepResetAtom(a *ast.ExpressionAtom, depth int) {
+	if a == nil || depth > 64 {
+		return
+	}
+	a.Evaluated = false
+	deepResetAtom(a.ExpressionAtom, depth+1)
+	if a.FunctionCall != nil && a.FunctionCall.ArgumentList != nil {
+		for _, x := range a.FunctionCall.ArgumentList.Arguments {
+			deepReset(x, depth+1)
+		}
+	}
+	if a.ArrayMapSelector != nil {
+		deepReset(a.ArrayMapSelector.Expression, depth+1)
+	}
+	deepResetVar(a.Variable, depth+1)
+}
+
+func deepResetVar(v *ast.Variable, depth int) {
+	if v == nil || depth > 64 {
+		return
+	}
+	if v.ArrayMapSelector != nil {
+		deepReset(v.ArrayMapSelector.Expression, depth+1)
+	}
+	deepResetVar(v.Variable, depth+1)
+}
+
 // fresh evaluates rule `name` from scratch on the current facts (reference copy, memo cleared).
 func (w *tbWorld) fresh(name string) bool {
 	w.ref.WorkingMemory.ResetAll()
 	re := w.ref.RuleEntries[name]
 	if re == nil {
 		return false
+	}
+	if re.WhenScope != nil {
+		deepReset(re.WhenScope.Expression, 0)
 	}
 	hc, gc := w.f.HeavyCalls, w.f.GetICalls
 	can, err := re.Evaluate(context.Background(), w.dc, w.ref.WorkingMemory)
@@ -231,6 +274,7 @@ var tbSets = map[string][]string{
 	"memo":    {"b_basic", "b_toplevel", "b_slice_sel", "b_slice", "b_map", "b_nested", "b_short", "b_shared", "b_forget", "b_ptrswap", "b_forgetcall"},
 	"control": {"b_retract", "b_fail", "b_nilptr"},
 	"values":  {"b_compound", "b_args", "b_float", "b_string"},
+	"clone":   {"b_argshare", "b_shared", "b_short", "b_retract", "b_map", "b_slice_sel", "b_forgetcall", "two"},
 }
 
 // VerifTierBSet runs VerifTierBRun for every template of a set (enumerated by Choice, explored in parallel).
